@@ -116,6 +116,7 @@ type State struct {
 	nchoice  int
 	isInit   bool
 	symBr    int
+	w        *worker
 }
 
 func (s *State) clone() *State {
@@ -474,6 +475,12 @@ func (s *State) strBytes(x *Str) []*smt.Term {
 	return r
 }
 
+// errOOB: a concrete index lies outside a positional array. Through a
+// multi-target pointer this marks an alternative whose guard contradicts the
+// bounds check that was made on the merged length, so the alternative is
+// skipped; through a single-target pointer it is an engine error.
+var errOOB = fmt.Errorf("internal: index outside positional array")
+
 // errUnsupported aborts a path as incomplete.
 type errUnsupported struct{ msg string }
 
@@ -508,7 +515,7 @@ func (s *State) loadAt(v Value, path []Step) (Value, error) {
 		if st.Idx.IsConst() {
 			i := int(st.Idx.Val)
 			if i < 0 || i >= len(av.Elems) {
-				return nil, fmt.Errorf("internal: index %d out of positional array %d", i, len(av.Elems))
+				return nil, errOOB
 			}
 			v = s.elem(av, i)
 			continue
@@ -579,7 +586,7 @@ func (s *State) storeAt(v Value, path []Step, nv Value, g *smt.Term) (Value, err
 	if st.Idx.IsConst() {
 		i := int(st.Idx.Val)
 		if i < 0 || i >= len(av.Elems) {
-			return nil, fmt.Errorf("internal: store index %d out of positional array %d", i, len(av.Elems))
+			return nil, errOOB
 		}
 		ne, err := s.storeAt(s.elem(av, i), path[1:], nv, g)
 		if err != nil {
@@ -640,6 +647,9 @@ func (s *State) load(p *Ptr) (Value, error) {
 			continue // nil dereference is checked by the caller
 		}
 		v, err := s.loadLoc(al.L)
+		if err == errOOB && len(p.Alts) > 1 {
+			continue
+		}
 		if err != nil {
 			return nil, err
 		}
@@ -647,7 +657,7 @@ func (s *State) load(p *Ptr) (Value, error) {
 		vals = append(vals, v)
 	}
 	if len(vals) == 0 {
-		return nil, fmt.Errorf("internal: load through nil-only pointer")
+		return nil, fmt.Errorf("internal: load through nil-only or out-of-range pointer")
 	}
 	if len(vals) == 1 {
 		return vals[0], nil
@@ -797,6 +807,9 @@ func (s *State) store(p *Ptr, v Value) error {
 			g = s.c().True
 		}
 		if err := s.storeLoc(al.L, v, g); err != nil {
+			if err == errOOB && len(p.Alts) > 1 {
+				continue
+			}
 			return err
 		}
 	}
